@@ -116,6 +116,12 @@ def build_system(ctx, shape, assume_nonneg=True, sysname="sys", rt="none"):
         if nd.get("group"):
             kw["group"] = nd["group"]
         ps = node_parents(nd)
+        for gone in nd.get("after_deleting", ()):
+            # a dummy deleted BEFORE this node is added: rustworkx hands the freed index to this node, so a component can
+            # carry a lower node index than its own source / parent (added earlier than it in no ordering of the final tree)
+            if gone in info:
+                sysobj.del_comp(gone)
+                info.pop(gone)
         if kind == "Source":
             if sysobj is None:
                 sysobj = System(sysname, comp, **kw)
@@ -186,8 +192,9 @@ def finish(sysobj, info, shape):
     number of components) -> the shape restricted to the live nodes."""
     dead = [n["name"] for n in shape["nodes"] if n.get("dummy")]
     for nm in dead:
-        sysobj.del_comp(nm)
-        info.pop(nm, None)
+        if nm in info:  # (not already deleted on the way: after_deleting)
+            sysobj.del_comp(nm)
+            info.pop(nm, None)
     if not dead:
         return shape
     return {**shape, "nodes": [n for n in shape["nodes"] if not n.get("dummy")]}
